@@ -54,6 +54,8 @@ def run(module, cfg, *, workers=1, timeout=600, env=None, simulate=None, depth=N
     meta = tempfile.mkdtemp(prefix="tlc-meta-", dir=os.environ.get("VERIF_TLC_TMP",
                             os.path.join(os.environ.get("VERIF_SCRATCH", "/var/tmp"), "iauthd-verif")))
     jopts = ["-XX:+UseParallelGC", "-Xmx" + heap, "-Djava.io.tmpdir=" + meta]
+    if workers == 1:
+        jopts += ["-XX:ParallelGCThreads=2", "-XX:CICompilerCount=2"]
     if dfs_queue:
         jopts.append("-Dtlc2.tool.queue.IStateQueue=StateDeque")
     if java_opts:
